@@ -1,8 +1,127 @@
 import Ypv.Drv.Codec
-/-! Driver handler for C08 (stub: replaced by the module that models C08) -/
+import Ypv.Model.Parser
+import Ypv.Model.Render
+import Ypv.Spec.Write
+/-! Driver handler for C08: stringifier / `YAMLPath` object model and the specification writer -/
 namespace Ypv.Drv.C08
 open Lean (Json)
+open Ypv Ypv.Drv
 
-def handle (_op : String) (_j : Json) : Except String Json := throw "C08: driver not implemented yet"
+def errJson : PErr → Json
+  | .ypath c => Json.mkObj [("ypath", Json.num (Lean.JsonNumber.fromNat c))]
+  | .crash c => Json.mkObj [("crash", Json.num (Lean.JsonNumber.fromNat c))]
+
+def outJson {α : Type} (f : α → Json) : Except PErr α → Json
+  | .ok v => Json.mkObj [("ok", f v)]
+  | .error e => errJson e
+
+def strJson (s : Str) : Json := Json.str (l2s s)
+
+def sepOf : String → SepOpt
+  | "dot" => .dot
+  | "fslash" => .fslash
+  | _ => .auto
+
+/-- `str(p)` of a fresh `YAMLPath(t)` after `p.separator = to` (no assignment for `auto`). -/
+def strTo (t : Str) (to : SepOpt) : Except PErr Str :=
+  let p := PathObj.new t
+  match (if to = .auto then .ok p else p.setSep to) with
+  | .error e => .error e
+  | .ok p => match p.str with
+    | .error e => .error e
+    | .ok (s, _) => .ok s
+
+def bind2 {α β : Type} (x : Except PErr α) (f : α → Except PErr β) : Except PErr β :=
+  match x with
+  | .ok v => f v
+  | .error e => .error e
+
+/-- everything the check observes about one path text -/
+def textRecord (t : Str) : Json :=
+  let s0 := strTo t .auto
+  let sd := strTo t .dot
+  let sf := strTo t .fslash
+  let re (s : Except PErr Str) : Json := outJson segsToJson (bind2 s (fun x => parse true x))
+  let fx (s : Except PErr Str) : Json := outJson strJson (bind2 s (fun x => strTo x .auto))
+  let eq (a b : Except PErr Str) : Json :=
+    outJson Json.bool (bind2 a (fun x => bind2 b (fun y => eqModel x y)))
+  Json.mkObj [
+    ("esc", outJson segsToJson (parse true t)),
+    ("unesc", outJson segsToJson (parse false t)),
+    ("wf", Json.bool (match parse true t with | .ok ss => wfSegs ss | .error _ => false)),
+    ("str", outJson strJson s0), ("sd", outJson strJson sd), ("sf", outJson strJson sf),
+    ("re", Json.arr #[re s0, re sd, re sf]),
+    ("fix", Json.arr #[fx s0, fx sd, fx sf]),
+    ("eq", Json.arr #[eq (.ok t) sd, eq (.ok t) sf, eq sd sf])]
+
+def objJson (p : PathObj) : Json :=
+  Json.mkObj [("original", strJson p.original)]
+
+def handle (op : String) (j : Json) : Except String Json := do
+  match op with
+  | "text" =>
+    let t := s2l (← getStr j "t")
+    pure (textRecord t)
+  | "segs" =>
+    let ss ← segsOfJson (← j.getObjVal? "segs")
+    let wd := write false ss
+    let wf := write true ss
+    pure (Json.mkObj [
+      ("wf", Json.bool (wfSegs ss)), ("dotx", Json.bool (dotExpressible ss)),
+      ("wd", strJson wd), ("wf_", strJson wf),
+      ("rd", outJson strJson (strTo wd .auto)), ("rf", outJson strJson (strTo wf .auto)),
+      ("pd", outJson segsToJson (parseWith false true wd)),
+      ("pf", outJson segsToJson (parseWith true true wf))])
+  | "eq" =>
+    let a := s2l (← getStr j "a")
+    let b := s2l (← getStr j "b")
+    pure (outJson Json.bool (eqModel a b))
+  | "appendpop" =>
+    let t := s2l (← getStr j "t")
+    let sg := s2l (← getStr j "seg")
+    let viaAdd := (getBool j "add").toOption.getD false
+    let p0 := PathObj.new t
+    let p1 := if viaAdd then p0.add sg else p0.append sg
+    let esc1 := (p1.escaped).map (·.1)
+    let popped := p1.pop
+    pure (Json.mkObj [
+      ("app", strJson p1.original),
+      ("app_esc", outJson segsToJson esc1),
+      ("pop", outJson (fun (x : Seg × PathObj) => Json.mkObj
+          [("seg", segToJson x.1), ("after", strJson x.2.original),
+           ("after_esc", outJson segsToJson ((x.2.escaped).map (·.1)))]) popped)])
+  | "pop" =>
+    let t := s2l (← getStr j "t")
+    let to := sepOf ((getStr j "to").toOption.getD "auto")
+    let p := PathObj.new t
+    let r : Except PErr (Seg × PathObj) :=
+      bind2 (if to = .auto then .ok p else p.setSep to) (fun p => p.pop)
+    pure (outJson (fun (x : Seg × PathObj) => Json.mkObj
+          [("seg", segToJson x.1), ("after", strJson x.2.original)]) r)
+  | "escape" =>
+    let v := s2l (← getStr j "v")
+    let sep : Char := if (← getStr j "sep") = "fslash" then '/' else '.'
+    pure (Json.mkObj [("section", strJson (escapePathSection sep v)),
+                      ("key", strJson (ensureEscaped (keySyms sep) v)),
+                      ("spec", strJson (escText sep v))])
+  | "strip" =>
+    let t := s2l (← getStr j "t")
+    let pre := s2l (← getStr j "pre")
+    let r := stripPathPrefix (PathObj.new t) (PathObj.new pre)
+    pure (outJson (fun (x : PathObj × PathObj × PathObj) => Json.mkObj
+      [("original", strJson x.1.original),
+       ("str", outJson strJson ((x.1.str).map (·.1)))]) r)
+  | "tables" =>
+    let ms : List Method := [.contains, .endsWith, .equals, .startsWith, .gt, .lt, .ge, .le, .regex]
+    let cs : List CollOp := [.none, .add, .sub, .inter]
+    let ks : List Keyword := [.distinct, .hasChild, .name, .max, .min, .parent, .unique]
+    pure (Json.mkObj [
+      ("methods", Json.mkObj (ms.map (fun m => (methodName m, strJson m.text)))),
+      ("collops", Json.mkObj (cs.map (fun m => (collOpName m, strJson m.text)))),
+      ("keywords", Json.mkObj (ks.map (fun m => (keywordName m, strJson m.text)))),
+      ("keysyms", strJson (keySyms '.')), ("sectionsyms", strJson (sectionSyms '.')),
+      ("special", strJson ((sectionSyms '.').filter (special '.'))),
+      ("delims", strJson regexDelims), ("wdelims", strJson writeDelims)])
+  | _ => throw s!"C08: unknown op {op}"
 
 end Ypv.Drv.C08
